@@ -269,6 +269,29 @@ func (m *gModel) text() string {
 	return b.String()
 }
 
+func c14StmtTree(ss []gStmt) []any {
+	out := []any{}
+	for _, s := range ss {
+		switch s.Kind {
+		case "call":
+			out = append(out, map[string]any{"k": "call", "app": s.App, "ep": s.Ep})
+		case "ret":
+			out = append(out, map[string]any{"k": "ret"})
+		case "alt":
+			var alts []any
+			for _, a := range s.Alts {
+				alts = append(alts, c14StmtTree(a))
+			}
+			out = append(out, map[string]any{"k": "alt", "alts": alts})
+		case "if", "else", "foreach", "loop", "group":
+			out = append(out, map[string]any{"k": "block", "body": c14StmtTree(s.Body)})
+		default:
+			out = append(out, map[string]any{"k": "action"})
+		}
+	}
+	return out
+}
+
 func (m *gModel) oracleReq() map[string]any {
 	apps := append([]gApp{}, m.Apps...)
 	apps = append(apps, gApp{Name: "Project", Eps: []gEp{{Name: "Proj"}}})
@@ -279,14 +302,8 @@ func (m *gModel) oracleReq() map[string]any {
 		sort.Slice(eps, func(i, j int) bool { return eps[i].Name < eps[j].Name })
 		var je []any
 		for _, e := range eps {
-			var calls []any
-			for _, c := range flattenCalls(e.Stmts) {
-				calls = append(calls, []string{c[0], c[1]})
-			}
-			if calls == nil {
-				calls = []any{}
-			}
-			je = append(je, map[string]any{"name": e.Name, "hidden": e.Hidden, "calls": calls})
+			// the statement tree itself: which calls an endpoint makes is the model's own reading of it (Ints.flatL)
+			je = append(je, map[string]any{"name": e.Name, "hidden": e.Hidden, "stmts": c14StmtTree(e.Stmts)})
 		}
 		ja = append(ja, map[string]any{"name": a.Name, "human": a.Human, "eps": je})
 	}
